@@ -2,6 +2,7 @@ package graphicsstate
 
 import (
 	"fmt"
+	"math"
 
 	"github.com/tsawler/tabula/model"
 )
@@ -302,11 +303,13 @@ func (gs *GraphicsState) GetEffectiveFontSize() float64 {
 	baseFontSize := gs.Text.FontSize
 
 	// The text matrix is [a b c d e f]
-	// For vertical scaling (typical font size), we use element d (index 3)
-	// For horizontal scaling, we use element a (index 0)
+	// The vertical unit vector (0,1) maps to (c,d), the horizontal one (1,0)
+	// to (a,b); their lengths are the vertical and horizontal scale also when
+	// the matrix rotates the text (a = d = 0 for text rotated by 90 degrees).
 	// We take the maximum to handle both cases
-	verticalScale := abs(gs.Text.TextMatrix[3])   // d component
-	horizontalScale := abs(gs.Text.TextMatrix[0]) // a component
+	tm := gs.Text.TextMatrix
+	verticalScale := math.Hypot(tm[2], tm[3])
+	horizontalScale := math.Hypot(tm[0], tm[1])
 
 	// Use the larger of the two scales
 	scale := verticalScale
